@@ -70,6 +70,14 @@ CHECKS = {
          "Every enumerated hostile value is either refused with UBXMessageError/UBXTypeError or encoded exactly as the reference codec prescribes with all other fields untouched and the payload length implied by the definition; no other exception type escapes (known finding: wrong-length values for C fields).",
          "reference codec decides whether a value fits; bool counts as int; scaled fields may differ by one unit; large legitimate group counts (>1000) skipped for cost.",
          "DESIGN.md §5 C15"),
+ "C04": ("bounded exhaustive exploration of every construction route (keywords, payload, config helpers, no-keyword) x addressing form (names, ints, bytes) over every routed definition / named class-ID; oracle = independent framing + Fletcher + acceptance by parse",
+         "Every message built in the enumerated spaces serializes to b5 62 + class + ID + LE length equal to the actual payload length + payload + reference Fletcher checksum, is accepted by parse in the same mode with identical re-serialization, and the three addressing forms give identical frames.",
+         "independent framing in mc/refmodel/core.py; attribute values limited to boundary values; payload contents to fill patterns.",
+         "DESIGN.md §5 C04"),
+ "C13": ("three explorations on the real code: exhaustive set/delete of every attribute name of a message per definition; explicit-state search over an operation alphabet with a deep digest of all module state (every event must be a self-loop) plus all histories of length 2(3) against a probe set with fd-level output capture; iterative preemption-bounded enumeration of thread schedules (sys.settrace line-level cooperative scheduler) for colliding operation pairs/triples",
+         "No attribute of any enumerated message can be set or deleted (UBXMessageError, message unchanged); no event of the alphabet changes the digest of pyubx2's module state or writes to fd 1/2, and no history of the explored depth changes a probe result; for every explored pair/triple of colliding operations every schedule with at most the stated number of line-level preemptions gives each thread its sequential result.",
+         "digest covers data reachable from pyubx2 module globals (not pynmeagps/pyrtcm); preemptions only at source-line boundaries inside pyubx2; bound 1 in quick, 2 (capped) in thorough.",
+         "DESIGN.md §5 C13"),
 }
 NOT_YET = "check not built yet in this round (planned: see DESIGN.md §5)"
 
